@@ -291,7 +291,7 @@ def validate_traces(module, traces, invariants, workdir, batch=12, extra_consts=
 OP = dict(END=0, CR=1, JN=2, TJ=3, DT=4, YD=5, EX=6, RET=7, LK=8, TL=9, UL=10, INC=11, CWAIT=12, CSIG=13, CBC=14,
           BAR=15, JCDEC=16, JCWAIT=17, UCWAIT=18, UCSIG=19, FEWL=20, FEMS=21, ONCE=22, KSET=23, KGET=24,
           SLEEP=25, TLK=26, TJN=27, SETV=28, WAITV=29, NEST=30, PROBE=31, KCREATE=32, KDELETE=33,
-          CANCEL=34, TESTCANCEL=35, BUSY=36, FELK=37, FEUL=38, WAITGE=39, CBCO=40)
+          CANCEL=34, TESTCANCEL=35, BUSY=36, FELK=37, FEUL=38, WAITGE=39, CBCO=40, JCPOKE=41)
 F_PF, F_DETACH, F_STACK, F_ATTR, F_NULLID, F_DIRTY = 1, 2, 4, 8, 16, 32
 
 
@@ -959,7 +959,7 @@ def check_C07(ctx):
     std_check(ctx, [('MC_Sync', 'MC_Sync_jc.cfg')], gen_jc_prog, 30, 6,
               [('wake_count', mut_first(lambda e: e['e'] == 'JcWake', set_arg(2, lambda v: v + 1))),
                ('early_return', mut_first(lambda e: e['e'] == 'U_JcWaitCall', lambda evs, i: evs[:i + 1] + [{'w': evs[i]['w'], 'e': 'U_JcWaitRet', 'a': [evs[i]['a'][0], evs[i]['a'][1], 1]}] + evs[i + 1:])),
-               ('cas_word', mut_first(lambda e: e['e'] == 'JcCas' and e['a'][3] == 1, set_arg(2, lambda v: v + 1)))],
+               ('cas_word', mut_first(lambda e: e['e'] == 'JcCas' and e['a'][5] == 1, set_arg(4, lambda v: v + 1)))],
               thorough_designs=[('MC_Sync', 'MC_Sync_jc4.cfg')])
 
 
@@ -1903,6 +1903,18 @@ def gen_barrier_prog(rng):
 
 
 def gen_jc_prog(rng):
+    if rng.random() < 0.2:
+        # a counter of N near 2^30 .. 2^31 decrements (the packed word then needs 31 bits for the decrement field): the
+        # word is preset to N - m and the last m decrements are made by threads, with waiters arriving before / between
+        N = rng.choice((2 ** 30 - 1, 2 ** 30, 2 ** 30 + 7, 2 ** 31 - 1))
+        m = rng.randint(1, 3)
+        bodies = [[(OP['YD'], rng.choice((0, 1, 2)), 0, 0)] * rng.randint(0, 2) + [(OP['JCDEC'], 0, 0, 0)] for _ in range(m)]
+        for _ in range(rng.randint(1, 3)):
+            bodies.append([(OP['YD'], rng.choice((0, 1, 2)), 0, 0)] * rng.randint(0, 2) + [(OP['JCWAIT'], 0, 0, 0)])
+        rng.shuffle(bodies)
+        prog = _spawn_join(rng, bodies, [(OP['JCWAIT'], 0, 0, 0)] if rng.random() < 0.6 else [])
+        prog[0] = [(OP['JCPOKE'], 0, m, 0)] + prog[0]
+        return {'init': [(2, 0, N)], 'bodies': prog}
     nd = rng.choice((1, 1, 2, 3, 4, 7))
     nwait = rng.randint(0, 3)
     bodies = []
